@@ -4,7 +4,7 @@ import os
 import numpy as np
 import torch
 
-from harness import coqio, cparse, nets, compiled
+from harness import protocols, coqio, cparse, nets, compiled
 from harness.common import Check
 from translate import gatecode as t_gc, wrapper as t_wr
 
@@ -233,6 +233,8 @@ def run(ck: Check):
     # keep the text for the standalone compile
     coq_compare(ck, items)
     kernel_exec_vs_so(ck, items)
+    # a fresh compilation follows the CURRENT logits whatever mechanism changed them (nothing memoised in the layer goes stale)
+    protocols.dense_protocol(ck, "raw", "")
     return ck.finish()
 
 
